@@ -480,7 +480,16 @@ def finite(a):
 class C13(Family):
     prop = "C13"
     extra_modules = ["CtrlVerif.Props.C13Arg",    # argument principle on the imaginary axis (H1, H3 discharged)
-                     "CtrlVerif.Props.C13Grid"]   # default frequency grid: range, start at 0, end at Nyquist
+                     "CtrlVerif.Props.C13Grid",   # default frequency grid: range, start at 0, end at Nyquist
+                     # source-text tie (notes/NOTES-py2lean-unwrap.md): Generated/Nyq*.lean are rewritten from the
+                     # text of ctrlutil.unwrap and of the count / indentation / P-Z statements of nyquist_response
+                     "CtrlVerif.Props.C13Gen", "CtrlVerif.Props.C13GenIndent", "CtrlVerif.Props.C13GenArg"]
+
+    def pre_build(self):
+        import os
+        from core import py2lean_nyq, leanproj
+        problems, self.gen_info = py2lean_nyq.regenerate(os.environ.get("VERIF_REPO") or "/repo", leanproj.LEAN)
+        return problems
     externals = ["numpy.angle (quadrant contract checked per sample)", "numpy.sqrt", "numpy.log / numpy.exp "
                  "(discrete-time contour mapping)", "poles() of the loop and of the closed loop "
                  "(numpy.roots / eigvals)", "evaluation of the loop on the contour (C04)",
